@@ -538,7 +538,11 @@ func bases(rng *h.Rng) []base {
 		n := 3 + rng.Intn(20)
 		for i := 0; i < n; i++ {
 			op := validOps[rng.Intn(len(validOps))]
-			a.ins(append([]byte{op}, rng.Bytes(rng.Intn(7))...)...)
+			nop := rng.Intn(7)
+			if rng.Chance(1, 6) { // an over-long instruction: skip is clamped at 24 and the scan lands inside it
+				nop = 23 + rng.Intn(12)
+			}
+			a.ins(append([]byte{op}, rng.Bytes(nop)...)...)
 		}
 		if rng.Bool() {
 			a.halt()
